@@ -65,7 +65,8 @@ func check(c *harness.Ctx, u *universe, leaf *cert, roots, inters []*cert, q que
 				o := opts
 				o.Roots, o.Intermediates = pool(rp), pool(ip)
 				if ch, e := leaf.x.Verify(o); e == nil && len(ch) > 0 {
-					c.Violate("order-dependent-reject:"+canonical(leaf, roots, inters), fmt.Sprintf("Verify fails for pools inserted as roots=%s inters=%s but succeeds for roots=%s inters=%s; the reference finds a valid chain (%s)", ids(roots), ids(inters), ids(rp), ids(ip), label), nil, label)
+					mr, mi := minimise(leaf, roots, inters, q, opts)
+					c.Violate("order-dependent-reject:"+canonical(leaf, mr, mi), fmt.Sprintf("Verify fails for pools inserted as roots=%s inters=%s but succeeds for roots=%s inters=%s; the reference finds a valid chain (%s)", ids(roots), ids(inters), ids(rp), ids(ip), label), nil, label)
 					return
 				}
 			}
@@ -108,6 +109,38 @@ func check(c *harness.Ctx, u *universe, leaf *cert, roots, inters []*cert, q que
 // classify names the feature of the topology that is most likely responsible (for stable keys).
 func classify(leaf *cert, roots, inters []*cert, q query) string {
 	return fmt.Sprintf("leaf=%s|roots=%s|inters=%s", leaf.d.id, ids(roots), ids(inters))
+}
+
+// minimise greedily removes certificates from the pools while the reference still accepts and
+// Verify (pools inserted in the same relative order) still rejects: the smallest failing topology
+// names the finding.
+func minimise(leaf *cert, roots, inters []*cert, q query, opts gx509.VerifyOptions) ([]*cert, []*cert) {
+	fails := func(rs, is []*cert) bool {
+		if !refAccept(leaf, rs, is, q) {
+			return false
+		}
+		o := opts
+		o.Roots, o.Intermediates = pool(rs), pool(is)
+		ch, e := leaf.x.Verify(o)
+		return !(e == nil && len(ch) > 0)
+	}
+	without := func(cs []*cert, i int) []*cert { return append(append([]*cert{}, cs[:i]...), cs[i+1:]...) }
+	for changed := true; changed; {
+		changed = false
+		for i := range roots {
+			if r := without(roots, i); fails(r, inters) {
+				roots, changed = r, true
+				break
+			}
+		}
+		for i := range inters {
+			if n := without(inters, i); fails(roots, n) {
+				inters, changed = n, true
+				break
+			}
+		}
+	}
+	return roots, inters
 }
 
 // canonical names a topology independently of insertion order.
